@@ -38,13 +38,13 @@ impl World for RingBufWorld {
         let mut v = Vec::new();
         for y in [BUF_ARRAY, BUF_FIXED, BUF_GROWING] {
             for x in 0..=8u8 {
-                v.push(Cfg { flavour: 0, mode: 0, x, y, k: 0 });
+                v.push(Cfg { flavour: 0, mode: 0, x, y, k: 0, sw: 0 });
             }
             // constructed with new(): ArrayBuf keeps its array length, the heap buffers have capacity 0
-            v.push(Cfg { flavour: 0, mode: 1, x: if y == BUF_ARRAY { 3 } else { 0 }, y, k: 0 });
+            v.push(Cfg { flavour: 0, mode: 1, x: if y == BUF_ARRAY { 3 } else { 0 }, y, k: 0, sw: 0 });
             // zero-sized elements (signal channels): only counts can be compared
             for x in [0u8, 2, 3] {
-                v.push(Cfg { flavour: 0, mode: 2, x, y, k: 0 });
+                v.push(Cfg { flavour: 0, mode: 2, x, y, k: 0, sw: 0 });
             }
         }
         v
@@ -54,7 +54,7 @@ impl World for RingBufWorld {
         let depth = if tier == Tier::Quick { 40 } else { 60 };
         for y in [BUF_ARRAY, BUF_FIXED, BUF_GROWING] {
             for x in 0..=4u8 {
-                v.push((Cfg { flavour: 0, mode: 0, x, y, k: 0 }, depth));
+                v.push((Cfg { flavour: 0, mode: 0, x, y, k: 0, sw: 0 }, depth));
             }
         }
         v
